@@ -183,7 +183,20 @@ check('C04', 'exploration',
       'TLA+ mutant family + conformance predicate evaluated by TLC on every real exchange (trace validation)',
       'DESIGN.md 4/C04')
 
-PENDING = ['C03', 'C07', 'C17']
+check('C03', 'exploration',
+      'SpyneFlatIdx.tla models the sparse -> contiguous index bookkeeping (`_s2cmi` + idxmap) as a state machine over every arrival order '
+      'of the wire indexes {0, 1, 2, 10, 11} (RankInv, OrderInv, MapInv; the AppendNew deviation violates OrderInv); every edge of its '
+      'state graph is replayed on the real `_s2cmi`. SpyneFlat.tla states the flattened notation (a, a.b.c, a[i].b, repeated keys) as '
+      'Pairs(case, cfg); FlatCases (signature templates + shapes three levels deep: arrays inside arrays of objects, repeated object '
+      'members, repeated primitives, 6-element arrays) x hier_delim {., /, :} x index choice {contiguous, sparse 2,10,11,..} x key order '
+      '{asc, desc, rot, zip} x strict_arrays x validator {None, soft}: every request is a real GET through WsgiApplication and TLC '
+      '(TraceFlat) checks ReqIsSpec, OrderIsPerm, Delivered (called once, equal values, arrays in index order); Spyne\'s own '
+      'object_to_simple_dict is the canonical bag and reads back (OwnFlatIsSpec, OwnFlatReadsBack); a primitive return value through an '
+      'HttpRpc out protocol is its exact text / bytes, falsy values included, and the declared out header travels as HTTP headers.',
+      'TLA+ state machine model checked by TLC and replayed on the code + TLA+ notation model evaluated by TLC on every real exchange',
+      'DESIGN.md 4/C03')
+
+PENDING = ['C07', 'C17']
 
 def main():
     import importlib
